@@ -24,16 +24,17 @@ type hspec struct {
 	Beh  [6]probe.Beh `json:"beh"`
 }
 type scenario struct {
-	ReadFail bool    `json:"readfail,omitempty"` // targeted: a codec panics with the transport's (possibly wrapped) read error, nothing else closes the channel
-	Tbl      []hspec `json:"tbl"`
-	Async    int     `json:"async"` // queue size, 0 = sync channel
-	Until    bool    `json:"until"` // async channel waits for pending writes (the bootstrap default)
-	Reads    int     `json:"reads"` // read-loop iterations to allow before the end
-	Closers  []int   `json:"closers"`
-	FailW    int     `json:"failw"` // fail the k-th transport write (sender-failure path)
-	Writes   int     `json:"writes"`
-	Triggers int     `json:"triggers"`
-	Picks    []int   `json:"picks,omitempty"`
+	PreCancel bool    `json:"precancel,omitempty"` // the channel is served with a parent context that has already ended (accepted while Shutdown runs)
+	ReadFail  bool    `json:"readfail,omitempty"`  // targeted: a codec panics with the transport's (possibly wrapped) read error, nothing else closes the channel
+	Tbl       []hspec `json:"tbl"`
+	Async     int     `json:"async"` // queue size, 0 = sync channel
+	Until     bool    `json:"until"` // async channel waits for pending writes (the bootstrap default)
+	Reads     int     `json:"reads"` // read-loop iterations to allow before the end
+	Closers   []int   `json:"closers"`
+	FailW     int     `json:"failw"` // fail the k-th transport write (sender-failure path)
+	Writes    int     `json:"writes"`
+	Triggers  int     `json:"triggers"`
+	Picks     []int   `json:"picks,omitempty"`
 }
 
 type result struct {
@@ -78,10 +79,15 @@ func run(sc scenario, choose func(step int, en []*sched.Thread, last *sched.Thre
 	tr := &mock.Transport{FailWrite: sc.FailW}
 	ex := &sched.Executor{S: s}
 	var ch netty.Channel
+	parent, cancelParent := context.WithCancel(context.Background())
+	defer cancelParent()
+	if sc.PreCancel {
+		cancelParent()
+	}
 	if sc.Async > 0 {
-		ch = netty.NewAsyncWriteChannel(sc.Async, sc.Until)(1, context.Background(), pl, tr, ex)
+		ch = netty.NewAsyncWriteChannel(sc.Async, sc.Until)(1, parent, pl, tr, ex)
 	} else {
-		ch = netty.NewChannel()(1, context.Background(), pl, tr, ex)
+		ch = netty.NewChannel()(1, parent, pl, tr, ex)
 	}
 	tr.OnEvent = func(kind string) {
 		if kind == "close" {
@@ -210,6 +216,15 @@ func check(sc scenario, r *result, meta *hx.Meta) {
 			closes++
 		}
 	}
+	for i, h := range sc.Tbl {
+		if h.Caps>>uint(probe.KActive)&1 == 1 {
+			// the first handler (from the head) that handles active events must see exactly one, always
+			if activeVisits[i+1] != 1 {
+				v("C05", "active-once", fmt.Sprintf("the first active-capable handler (position %d) saw the active event %d times", i+1, activeVisits[i+1]))
+			}
+			break
+		}
+	}
 	for pos, n := range activeVisits {
 		if n != 1 {
 			v("C05", "active-once", fmt.Sprintf("handler at position %d saw the active event %d times", pos, n))
@@ -333,6 +348,7 @@ func genScenario(rng *hx.Rng, meta *hx.Meta, prop string) scenario {
 		sc.Async = 1 + rng.Intn(3)
 		sc.Until = rng.Bool()
 	}
+	sc.PreCancel = rng.Chance(12)
 	sc.Writes = rng.Intn(3)
 	sc.Triggers = rng.Intn(2)
 	for i, k := 0, rng.Intn(3); i < k; i++ {
